@@ -1,5 +1,6 @@
 import Driver.Util
 import RadicaleModel.Server
+import RadicaleModel.ContentLength
 open Lean
 namespace Driver
 
@@ -14,6 +15,12 @@ def srvJson (max : Int) (s : Server.State) : Json :=
 def handleServer (j : Json) : Json :=
   match getS j "op" with
   | "gate" => obj [("r", Json.bool (Server.refusesBody (getBool j "internal") (getInt j "max_len") (getNat j "len")))]
+  | "cl" =>
+    -- {"fixed","internal","max_len","raw":chars,"avail"} → what the raw Content-Length header leads to
+    let r := Radicale.ContentLength.handle (getBool j "fixed") (getBool j "internal") (getInt j "max_len") (getStr j "raw") (getNat j "avail")
+    obj [("outcome", Json.str (match r.1 with | .tooLarge => "413" | .error500 => "500" | .badRequest => "400" | .proceeds => "proceeds")),
+         ("taken", jNat r.2),
+         ("int", match Radicale.ContentLength.pyInt (getStr j "raw") with | some v => jInt v | none => Json.null)]
   | _ =>
     let max := getInt j "max"
     let evs := (getArr j "events").map (fun e => match e with
